@@ -1,5 +1,5 @@
 """C18 — tracked flows are per tuple and expire when idle (spec/Conntrack.tla, spec/TimerWheel.tla)."""
-import json, os, random, re
+import collections, concurrent.futures, json, os, random, re
 from tools import tours
 from tools.check import MachineryError
 
@@ -11,7 +11,15 @@ RULE = ("MC: TLC proves on 2-3 flows (tcp/udp/default timeouts 3/1/2, 2/1/3 and 
         "against the reference layer. Routine caches: the cache content, its per-routine tick version and the period are part of "
         "the modelled state; the graphs C18_cache1/2 (PktR = decided by conntrack/rules on a routine, PktCached = admitted from "
         "the routine's cache) are replayed on real ConntrackCacheTickers under virtual time at log levels info/debug/trace; two "
-        "of three random histories run with 1-3 routines")
+        "of three random histories run with 1-3 routines. Whole node (the callers): ConntrackNode.tla restricts Conntrack.tla to what "
+        "one node with one pair of reader routines can do (the underlay reader judges every incoming packet, the tun reader every "
+        "outgoing one, each with its own cache); TLC re-checks the invariants on three such graphs (two udp flows opened from "
+        "either side, period = timeout; one udp flow opened by the peer and one tcp flow opened by the node, period 2 < timeout 3) "
+        "and edge-covering walks of them are replayed on two complete nodes (nebula.Main in a synctest bubble, virtual time, "
+        "units of 1 s and 100 ms, log levels info/debug/trace): node A has firewall.conntrack.routine_cache_timeout, the "
+        "conntrack timeouts and exactly the model's rules, peer B allows everything; an incoming packet is sent by B through "
+        "its tunnel and looked for on A's tun, an outgoing one is handed to A's tun and looked for as a data datagram leaving A "
+        "(and on B's tun); distinct = (graph, unit, log level, edge)")
 ASSUMPTIONS = [
     "decided for the default single-routine configuration (routine-local conntrack cache off: Drop is called with a nil cache) "
     "and for reader routines that each own a routine-local cache: one real firewall.ConntrackCacheTicker per routine, Get() per "
@@ -25,6 +33,12 @@ ASSUMPTIONS = [
     "which packets the rules allow is taken from the harness' reading of the generated rules and cross-checked against the code on "
     "fresh firewalls (configurations on which they differ are not used; rule semantics are C16's subject)",
     "protocols: tcp, udp and icmp (the default timeout)",
+    "whole-node stage: one pair of reader routines (routines: 1, all the in-process tun device of the e2e build offers), the "
+    "routine-local cache switched on by firewall.conntrack.routine_cache_timeout with a period of at most the timeout of the "
+    "protocols in the history, IPv4, udp and tcp flows between two nodes, no reload; time 0 of a history is the start of the "
+    "node's reader routines, every packet is handled to completion before the next stimulus (one packet per read of either "
+    "reader). Only a packet that leaves the node (or reaches its tun) although the statement forbids it is a verdict; a packet "
+    "the node refuses although the model's machine passes it ends the walk and is reported as machinery (drift), never as a finding",
 ]
 
 GRAPHS = {
@@ -65,6 +79,136 @@ def build_graphs(ctx, names, plan, rnd, max_len=60):
         g.pop('maps_quick', None)
         g['file'] = out
         plan['graphs'].append(g)
+
+
+# whole-node stage (spec/ConntrackNode.tla): the state graphs a complete node with one pair of reader routines can walk.
+# uu1: flow 1 (udp) opened by the peer, flow 2 (udp) by the node, cache period 1 unit = the udp timeout (cache hits inside
+# one instant only); u2: one udp flow opened by the peer, period 2 < timeout 3 (cache hits across instants, judged by the
+# tun reader); t2: one tcp flow opened by the node (judged by the underlay reader)
+NODE_GRAPHS = {
+    'uu1': {'protos': ['udp', 'udp'], 'to': [2, 1, 3], 'cachePeriod': 1},
+    'u2': {'protos': ['udp'], 'to': [1, 3, 2], 'cachePeriod': 2},
+    't2': {'protos': ['tcp'], 'to': [3, 1, 2], 'cachePeriod': 2},
+}
+
+
+def covering_walks(init, edges, rnd, chunk, max_units=1200):
+    """Walks from the initial state that together contain every edge: follow uncovered edges, and when the current state
+    has none left take the shortest path to the nearest state that has; a walk ends after `chunk` steps or `max_units`
+    units of model time (the nodes' tunnel housekeeping stays out of the picture)."""
+    def units(es):
+        return sum(edges[ei][3][0] for ei in es if edges[ei][2] == 'Sleep')
+    out = collections.defaultdict(list)
+    for ei, e in enumerate(edges):
+        out[e[0]].append(ei)
+    for v in out.values():
+        rnd.shuffle(v)
+    left = {s: list(v) for s, v in out.items()}        # uncovered out-edges per state
+    todo = len(edges)
+    walks = []
+    while todo:
+        cur, walk, spent = init, [], 0
+        while todo and len(walk) < chunk and spent < max_units:
+            if not left.get(cur):
+                # breadth-first search for the nearest state with an uncovered out-edge
+                prev = {cur: None}
+                dq = collections.deque([cur])
+                goal = None
+                while dq and goal is None:
+                    u = dq.popleft()
+                    for ei in out[u]:
+                        v = edges[ei][1]
+                        if v not in prev:
+                            prev[v] = ei
+                            if left.get(v):
+                                goal = v
+                                break
+                            dq.append(v)
+                if goal is None:
+                    break                               # the rest is only reachable from the initial state
+                path = []
+                u = goal
+                while prev[u] is not None:
+                    path.append(prev[u])
+                    u = edges[prev[u]][0]
+                path.reverse()
+                walk += path
+                spent += units(path)
+                cur = goal
+            ei = left[cur].pop()
+            todo -= 1
+            walk.append(ei)
+            spent += units([ei])
+            cur = edges[ei][1]
+        if not walk:
+            raise MachineryError('edges unreachable from the initial state')
+        walks.append(walk)
+    return walks
+
+
+def node_stage(ctx, rnd):
+    """Whole-node stage: edge-covering walks of the state graphs of ConntrackNode.tla replayed on complete nodes."""
+    plan = {'graphs': []}
+    chunk = 1500 if ctx.quick else 600
+    covers = 1 if ctx.quick else 3
+    # the three model-checking runs are independent: run them side by side (own dump file, own metadir each)
+    def mc(name):
+        dot = os.path.join(ctx.spec_dir(), 'ctn_%s.dot' % name)
+        ctx.tlc('ConntrackNode', 'MC_ConntrackNode_%s.cfg' % name, args=['-dump', 'dot,actionlabels', dot], workers=1)  # 1 worker: reproducible edge order
+        return dot
+    ctx.spec_dir()
+    with concurrent.futures.ThreadPoolExecutor(len(NODE_GRAPHS)) as ex:
+        dots = dict(zip(NODE_GRAPHS, ex.map(mc, NODE_GRAPHS)))
+    for name, g in NODE_GRAPHS.items():
+        dot = dots[name]
+        states, init, edges = tours.load_dot(dot, keep_vars={'res', 'may', 'why', 'rules'})
+        os.remove(dot)
+        if len(init) != 1:
+            raise MachineryError('ConntrackNode %s: %d initial states' % (name, len(init)))
+        walks = []
+        for _ in range(covers):
+            walks += covering_walks(init[0], edges, rnd, chunk)
+        covered = set(ei for w in walks for ei in w)
+        if len(covered) != len(edges):
+            raise MachineryError('edge cover incomplete for ConntrackNode %s: %d of %d' % (name, len(covered), len(edges)))
+        out = 'ct_node_%s.json' % name
+        with open(os.path.join(ctx.scratch, out), 'w') as f:
+            json.dump({'states': states, 'init': init, 'edges': edges, 'tours': walks}, f)
+        rules = [{'f': r[0], 'inc': r[1]} for r in states[init[0]]['rules']]
+        # consecutive walks alternate the time unit and rotate the node's log level (two against three: every pair occurs)
+        plan['graphs'].append(dict(g, name=name, file=out, rules=rules, units=['1s', '100ms'], levels=['info', 'trace', 'debug']))
+        ctx.extra.setdefault('node_graphs', {})[name] = {'states': len(states), 'edges': len(edges), 'walks': len(walks),
+                                                          'steps': sum(len(w) for w in walks)}
+    with open(os.path.join(ctx.scratch, 'c18_e2e_plan.json'), 'w') as f:
+        json.dump(plan, f)
+    res = ctx.gotest('e2e', 'TestVerif_C18E2E', tags='verif e2e_testing', also=('net',), timeout=600 if ctx.quick else 1800, name='e2e')
+    ctx.take_mismatches(res)
+    act = res.get('actions') or {}
+    extra = res.get('extra') or {}
+    for bad in ('e2e:no-tunnel', 'e2e:routine-cache-not-configured', 'e2e:rule-reading-differs', 'e2e:peer-did-not-send', 'e2e:bubble-panic'):
+        if act.get(bad):
+            raise MachineryError('whole-node stage: %s (%s)' % (bad, str({k: v for k, v in extra.items() if not k.startswith('e2e:left-walk')})[:1500]))
+    left = act.get('e2e:left-walk', 0)
+    ctx.extra['node_walks_left_early'] = left
+    ctx.extra['node_cache_hits'] = {k: act.get('e2e:' + k, 0) for k in ('cache-hit', 'cache-hit-observed', 'cache-hit-not-observed', 'cache-hit-unexpected')}
+    if not ctx.violations:      # a violation ends its walk early; vacuity only matters for a pass
+        ctx.require_actions(*['e2e:graph:' + n for n in NODE_GRAPHS],
+                            'e2e:routine-cache-enabled', 'e2e:in:underlay-reader', 'e2e:out:tun-reader',
+                            'e2e:unit:1s', 'e2e:unit:100ms', 'e2e:log:info', 'e2e:log:trace', 'e2e:log:debug',
+                            'e2e:allowed-by-rule-passed', 'e2e:untracked-refused',
+                            # a reply let through by the tracked flow alone (and seen on the peer's tun), refused once the flow is idle
+                            'e2e:reply-passed-while-alive', 'e2e:reply-arrived-at-peer', 'e2e:reply-refused-after-idle',
+                            # admitted from a reader routine's cache: by the model, and observed on the node (the table entry
+                            # was not refreshed although a look at the table would have moved its expiry)
+                            'e2e:cache-hit', 'e2e:cache-hit-observed',
+                            # the first packet a reader routine handles after a quiet period, of a flow that routine had cached
+                            'e2e:first-packet-of-reader-after-quiet-period-refused', 'e2e:cached-flow-refused-after-quiet-period')
+        if left:
+            raise MachineryError('whole-node stage: the node refuses packets the model passes (or the reverse, permitted) on %d walks: '
+                                 'ConntrackNode.tla no longer describes the node: %s'
+                                 % (left, str({k: v for k, v in extra.items() if k.startswith('e2e:left-walk')})[:1500]))
+        if act.get('e2e:walk-completed', 0) != act.get('e2e:walk', -1):
+            raise MachineryError('whole-node stage: %d walks started, %d completed' % (act.get('e2e:walk', 0), act.get('e2e:walk-completed', 0)))
 
 
 def aswritten(ctx, cfg, invariant):
@@ -157,6 +301,8 @@ def run(ctx):
     if not ctx.violations and left * 5 > ctx.actions.get('R:tour', 1):
         raise MachineryError('the code refuses packets the model passes on %d of %d tours: the machine layer of Conntrack.tla no '
                              'longer describes the code' % (left, ctx.actions.get('R:tour', 0)))
+    # the callers: the same statement where the reader routines of a complete node hand their caches to the firewall
+    node_stage(ctx, random.Random(ctx.seed * 7919 + 18))
 
 
 META = {
@@ -164,13 +310,20 @@ META = {
     'technique': 'TLA+ spec Conntrack.tla (+ embedded TimerWheel.tla): TLC exhaustive check that the conntrack machine with an expiry '
                  'check on lookup refines the per-tuple/idle-timeout reference; every state-graph edge replayed on a real Firewall '
                  'under a virtual clock (testing/synctest) with single-component tuple differences; recorded random timed histories '
-                 'validated by TLC against the reference',
+                 'validated by TLC against the reference; edge-covering walks of the per-node restriction (ConntrackNode.tla) replayed on '
+                 'complete nodes (nebula.Main x2, virtual time) with the routine-local conntrack cache enabled',
     'text': 'TLC enumerates all interleavings of packets of 2-3 flows in both directions with idle gaps below, at and above the TCP, '
             'UDP and default timeouts, with the lazy one-purge-per-lookup eviction through the timing wheel, and checks that a packet '
             'passes only when a rule allows it or its own tuple was seen recently enough. Each transition is executed on a real '
             'Firewall built from a real config; beyond the bounds, random histories (6 flows, 2 peers, 2 local addresses, idle up to '
             '1 h, with and without unrelated churn) are accepted or rejected by TLC. The model of the code as written (no look at '
-            'Expires) is also run and its counterexample recorded as context.',
+            'Expires) is also run and its counterexample recorded as context. The callers are part of the check: the reader routines '
+            'of a complete node (interface.go listenIn / listenOut, inside.go, outside.go) own the routine caches and decide when a '
+            'cache handle is taken; every edge of the state graphs of ConntrackNode.tla (packets of peer-opened and node-opened flows '
+            'in both directions, cache hits inside and across instants, quiet periods below, at and above the timeout) is driven '
+            'through two real nodes and the packets that come out are compared with what the statement permits.',
     'design_ref': '3.7 C18',
-    'note': 'Trusts TLC, the tours/trace tooling and the harness reading of the generated rules (cross-checked against the code).',
+    'note': 'Trusts TLC, the tours/trace tooling and the harness reading of the generated rules (cross-checked against the code, '
+            'object level and whole node). Whole-node stage: one reader routine pair, in-process tun/udp devices of the e2e build '
+            '(one packet per read); several routine pairs, real sockets and batched reads are not exercised.',
 }
